@@ -458,8 +458,13 @@ func (vc *VC) libraryCall(st *State, call *ast.CallExpr, key string, fn *types.F
 		st.pc = TFalse
 		return nil, true
 	}
-	if pkg == "sync/atomic" || pkg == "sync" {
-		// shared cells: loads return arbitrary values, no heap effect modelled
+	if pkg == "sync/atomic" {
+		// shared cells: loads return arbitrary values; an atomic operation writes its own cell only
+		vc.havocPackageFields(st, pkg)
+		return vc.freshResults(st, call, fn.Name()), true
+	}
+	if pkg == "sync" {
+		// synchronisation points: what other goroutines did becomes visible
 		vc.havocExternalHeap(st)
 		return vc.freshResults(st, call, fn.Name()), true
 	}
